@@ -56,8 +56,8 @@ impl Check for C12 {
     }
     fn budget(&self, tier: Tier) -> u64 {
         match tier {
-            Tier::Quick => 5000,
-            Tier::Thorough => 120_000,
+            Tier::Quick => 25_000,
+            Tier::Thorough => 500_000,
         }
     }
     fn run(&self, ch: &mut Chooser, tier: Tier) -> RunOutcome {
